@@ -182,6 +182,10 @@ class RefEval:
             return self._finish(m, to_mpf(q), q, 0.0)
 
         kids = [self.eval(c) for c in M.children(m)]
+        if t == "Power" and kids[1].st == DEFINED and abs(kids[1].v) > 4096:
+            # checked before anything else (also when the base is undefined): the simplifier turns such a power into
+            # NthPower(u, n) with an astronomically large n whatever the base is worth
+            return R(RANGE, why=("power exponent", M.text(m)[:80]))
         worst = max((r.st for r in kids), key=_ORDER.get, default=DEFINED)
         if worst != DEFINED:
             why = next(r.why for r in kids if r.st == worst)
